@@ -89,13 +89,18 @@ class CollectiveAnomalyDetector(BaseDetector):
 
         y_anomaly = y_dense.loc[y_dense.values > 0]
         anomaly_locations_diff = y_anomaly.index.diff()
+        # A new anomaly starts where the positions jump or where the label changes
+        # (adjacent anomalies).
+        is_new_anomaly = (anomaly_locations_diff > 1) | (
+            y_anomaly.diff().abs() > 0
+        ).to_numpy()
 
         first_anomaly_start = y_anomaly.index[:1].to_numpy()
-        anomaly_starts = y_anomaly.index[anomaly_locations_diff > 1]
+        anomaly_starts = y_anomaly.index[is_new_anomaly]
         anomaly_starts = np.insert(anomaly_starts, 0, first_anomaly_start)
 
         last_anomaly_end = y_anomaly.index[-1:].to_numpy() + 1
-        anomaly_ends = y_anomaly.index[np.roll(anomaly_locations_diff > 1, -1)] + 1
+        anomaly_ends = y_anomaly.index[np.roll(is_new_anomaly, -1)] + 1
         anomaly_ends = np.insert(anomaly_ends, len(anomaly_ends), last_anomaly_end)
 
         anomaly_intervals = list(zip(anomaly_starts, anomaly_ends))
